@@ -226,8 +226,9 @@ class SheetGen:
             more += gen.comb() + c
         lead = ["0"] if first else gen.w_wsl(gen.wsl())
         out = Words(lead + words + more + gen.w_wsl(gen.wsl()))
-        if "=39,32,39" in out:
-            # the string ' ' inside a functional pseudo-class is taken for whitespace by the selector machine
+        if "=39,32,39" in out or "=34,32,34" in out:
+            # open finding C02-space-string-in-pseudo-function: the string ' ' / " " inside a functional pseudo-class is taken
+            # for whitespace by the selector machine
             # (selector.py `seq[-1].value == S`; reproduced by C16's model): not generated here
             return self.selector(first)
         return out
